@@ -2,7 +2,7 @@
    RegisterProprietaryMACCommand calls carries, for each entry, the encoded
    length of its payload kind *)
 From Coq Require Import List NArith ZArith Bool Lia.
-From LW Require Import Base.Outcome Base.Bytes Mac.Commands Mac.Spec Mac.Stream Mac.RegistryProofs Mac.StreamProofs.
+From LW Require Import Base.Outcome Base.Bytes Mac.Commands Mac.Spec Mac.Stream Mac.RegistryProofs Mac.EncProofs Mac.StreamProofs.
 From LWGen Require Import RegistryGen.
 Import ListNotations.
 Open Scope N_scope.
@@ -23,7 +23,10 @@ Proof.
   intros Hr. unfold register.
   destruct (negb ((128 <=? cid) && (cid <=? 255))); [exact Hr|].
   destruct (sz <? 0)%Z eqn:E1; [exact Hr|].
-  destruct (sz =? 0)%Z eqn:E2; [exact Hr|].
+  destruct (sz =? 0)%Z eqn:E2.
+  { (* size 0: the entry is removed; what remains was there before *)
+    cbn [fst]. intros u c s k H. rewrite reg_lookup_remove in H.
+    destruct (Bool.eqb up u && (cid =? c)); [discriminate|]. now apply (Hr u c s k). }
   cbn [fst]. intros u c s k H. cbn [reg_lookup] in H.
   destruct (Bool.eqb up u && (cid =? c)).
   - injection H as <- <-. split; [lia|congruence].
@@ -35,4 +38,37 @@ Proof.
   unfold register_all. generalize reg_ok_builtin. generalize builtin_registry.
   induction h as [|[[u c] sz] h IH]; intros r Hr; cbn [fold_left]; [exact Hr|].
   apply IH. now apply reg_ok_register.
+Qed.
+
+(* ---- finding C07-8 (known): MACCommand.MarshalBinary does not compare the payload with what the
+   CID has in the registry (it has no direction argument).  Without the premise [cmd_ok] of
+   [stream_roundtrip] the stream statement is false on today's code; every payload below is a
+   well-formed, in-range value that encodes without error. ---- *)
+Definition encodable (it : item) : Prop :=
+  match it with
+  | IMac c None => c < 256
+  | IMac c (Some v) => c < 256 /\ wf_go v = true /\ spec_in_range v = true
+  | IData _ => False
+  end.
+
+Definition unchecked_witness (h : list (bool * N * Z)) (up : bool) (cmds : list item) : Prop :=
+  Forall encodable cmds /\
+  exists bs, encode_cmds cmds = Ok bs /\
+             decode_stream (register_all builtin_registry h) up bs <> Ok (map item_resolution cmds).
+
+Theorem stream_unchecked_refuted :
+  (* a CID that has a payload, sent without one: LinkADRReq swallows the four DevStatusReq *)
+  unchecked_witness [] false [IMac 3 None; IMac 6 None; IMac 6 None; IMac 6 None; IMac 6 None] /\
+  (* a payload for a CID that has none downlink: DevStatusReq with a DevStatusAns payload = three DevStatusReq *)
+  unchecked_witness [] false [IMac 6 (Some (PDevStatusAns 6 6))] /\
+  (* proprietary payload longer than the registered size: the surplus byte becomes a command *)
+  unchecked_witness [(false, 160, 2%Z)] false [IMac 160 (Some (PProprietary [6; 6; 6])); IMac 6 None; IMac 6 None] /\
+  (* ... shorter: the next command is swallowed *)
+  unchecked_witness [(false, 160, 2%Z)] false [IMac 160 (Some (PProprietary [6])); IMac 6 None; IMac 6 None] /\
+  (* ... for a CID that was never registered *)
+  unchecked_witness [(false, 160, 2%Z)] false [IMac 161 (Some (PProprietary [6; 6])); IMac 6 None; IMac 6 None].
+Proof.
+  repeat split;
+    try (repeat constructor; cbn; try reflexivity; try lia; fail);
+    (eexists; split; [vm_compute; reflexivity | vm_compute; discriminate]).
 Qed.
